@@ -384,6 +384,13 @@ func (x *vElRun) launch(c, phase int) {
 			rq := protobuf.ArbiterProposalRequest{}
 			_ = proto.Unmarshal(m.cmd.Data, &rq)
 			nd.roundNum = rq.ProposalId
+			// the member proposed is a data-bearing member of non-zero weight (statement of C12, second sentence)
+			for j, h := range x.hosts {
+				if h == rq.Host && (x.spec[j].arbiter != 0 || x.spec[j].weight == 0) {
+					x.violation("C12:proposed-ineligible-member", fmt.Sprintf("candidate %d proposes %s (member %d: weight %d, arbiter %d) as the new leader with number %d", c, rq.Host, j, x.spec[j].weight, x.spec[j].arbiter, rq.ProposalId))
+					break
+				}
+			}
 		case 3:
 			rq := protobuf.ArbiterCommitRequest{}
 			_ = proto.Unmarshal(m.cmd.Data, &rq)
